@@ -171,6 +171,10 @@ var ruleAlphabet = []struct{ Tok, Line string }{
 	{"docs-dir", "docs/"},
 	{"aQc", "a?c"},
 	{"sub-star-tmp", "sub/*.tmp"},
+	// root-anchored forms combined with the other rule features
+	{"root-docs-dir", "/docs/"},         // anchored AND directory-only: the root docs/ with all below it, not sub/docs/
+	{"root-sub-star-tmp", "/sub/*.tmp"}, // anchored with a glob below a directory
+	{"root-aQc", "/a?c"},                // anchored with a single-character wildcard: root entries only
 	{"comment", "# comment"},
 	{"blank", ""},
 }
@@ -181,10 +185,13 @@ var ruleAlphabet = []struct{ Tok, Line string }{
 var probeNames = []string{
 	"README.md", "sub/README.md", // rooted rule: only the first
 	"notes.txt", "sub/notes.txt", "templates/extra.txt", "naïve-世界.txt", "notes.txt.bak", // basename glob anywhere
-	"docs/a.md", "sub/docs/c.md", "other/docs", // directory rule: directories named docs at any depth, not files
+	"docs/a.md", "docs/deep/b.md", "sub/docs/c.md", "other/docs", // directory rule: directories named docs at any depth (anchored: the root one only), not files
 	"abc", "sub/abc", "aéc", "ac", "abbc", "adc/inner.md", "templates/a-c", // ? = exactly one character; matches directories too
 	"sub/x.tmp", "sub/deep/y.tmp", "x.tmp", "other/sub/z.tmp", // structural rule: anchored at the root, * does not cross /
 }
+
+// ruleSetCount: non-empty subsets of size <= 2 of the alphabet.
+func ruleSetCount() int { n := len(ruleAlphabet); return n + n*(n-1)/2 }
 
 func probeFiles() []file {
 	var fs []file
